@@ -668,6 +668,18 @@ type ssMut struct {
 	//           starts, EOF follows the last one), the writer a separate sink; implies Pipe.
 	// On the last two nothing but the server's own loop stops it from reading what follows a malformed packet.
 	Tr string `json:"tr,omitempty"`
+	// Stage (with Pipe, not on "buf"): a STAGED pipeline.  The first Stage well-formed requests of the stream are
+	// sent one at a time, each reply read (so that every handle the rest uses was issued and RECEIVED); everything
+	// from request Stage on — requests on those live handles, the malformed packet, what follows it — goes out in
+	// ONE write.  The requests in front of the malformed packet are then still queued or running when it arrives.
+	Stage int `json:"stage,omitempty"`
+	// Hold (request server, with Stage): the ReadAt / WriteAt methods of the handler objects block from the moment
+	// the pipelined part is written until the server has hung up (its transport's Close was called), resp. — a
+	// stream without a malformed packet — until the server has taken the whole write; a bound ends the hold
+	// otherwise.  Stall (with Stage): the peer does not READ the server's output during that time (a client that
+	// writes its batch before it reads any reply): the response path backs up and the workers stay busy.
+	Hold  bool `json:"hold,omitempty"`
+	Stall bool `json:"stall,omitempty"`
 	// field: the W-byte (4 | 8) integer field at Off of Frame := V64; the rest of the frame is kept.
 	// Fit (string-length fields): the string is cut or padded to the new length and the frame's length
 	// prefix follows, so the request stays well-formed and is DISPATCHED with the new length.
